@@ -819,6 +819,94 @@ pub fn runtime_connect_probe(rng: &mut Rng) -> Vec<Finding> {
     f
 }
 
+// -------------------------------------------------------------------------------------------------
+// both directions of one link carry traffic at the same time
+// -------------------------------------------------------------------------------------------------
+
+struct Duplex {
+    /// (send instant, id, body size)
+    sends: Vec<(u64, u16, usize)>,
+}
+
+impl Module for Duplex {
+    fn at_sim_start(&mut self, _: usize) {
+        for (i, (t, _, _)) in self.sends.iter().enumerate() {
+            schedule_at(Message::default().kind(TIMER).id(i as u16), SimTime::from_duration(Duration::from_nanos(*t)));
+        }
+    }
+
+    fn handle_message(&mut self, msg: Message) {
+        if msg.header().kind == TIMER {
+            let (_, id, size) = self.sends[msg.header().id as usize];
+            send(Message::default().id(id).with_content(Pay { seq: u64::from(id), size }), "port");
+        } else {
+            PROBE_LOG.with(|l| l.borrow_mut().push((msg.header().id, now_ns(), false)));
+        }
+    }
+}
+
+/// The two directions of a link are independent channels: a message offered to the idle direction while the other
+/// direction transmits (and holds queued messages) starts at once and arrives after its own transmission time + latency.
+pub fn duplex_probe(rng: &mut Rng) -> Vec<Finding> {
+    let bitrate = *rng.pick(&[8_000usize, 1_000_000, 80_000]);
+    let latency = *rng.pick(&[0u64, 1_000_000, 30_000_000]);
+    let drop = rng.chance(1, 2);
+    let big = 1000 + rng.usize_below(3000);
+    let small = 1 + rng.usize_below(200);
+    let tx_big = tx_ns(big + HEADER, bitrate);
+    let t0 = 10_000_000u64;
+    // a: two big messages at t0 (the second is queued or dropped); b: one small message while a's first one transmits
+    let a_sends = vec![(t0, 1u16, big), (t0, 2u16, big)];
+    let b_at = t0 + 1 + rng.below(tx_big.max(2) - 1);
+    let b_sends = vec![(b_at, 11u16, small)];
+    let reverse_connect = rng.chance(1, 2);
+    PROBE_LOG.with(|l| l.borrow_mut().clear());
+    let res = vcommon::catch(move || {
+        let mut sim = Sim::new(());
+        sim.node("a", Duplex { sends: a_sends });
+        sim.node("b", Duplex { sends: b_sends });
+        let policy = if drop { ChannelDropBehaviour::Drop } else { ChannelDropBehaviour::Queue(None) };
+        let metrics = ChannelMetrics::new(bitrate, Duration::from_nanos(latency), Duration::ZERO, policy);
+        let (ga, gb) = (sim.gate("a", "port"), sim.gate("b", "port"));
+        if reverse_connect {
+            gb.connect(ga, Some(Channel::new(metrics)));
+        } else {
+            ga.connect(gb, Some(Channel::new(metrics)));
+        }
+        let rt = Builder::seeded(1).quiet().build(sim.freeze());
+        rt.run().map(|_| ()).map_err(|e| format!("{e}"))
+    });
+    let log = PROBE_LOG.with(|l| std::mem::take(&mut *l.borrow_mut()));
+    let mut f = Vec::new();
+    match res {
+        Err(p) => f.push(("panicked", format!("traffic in both directions of one link panicked: {p}"))),
+        Ok(Err(e)) => f.push(("run-error", e)),
+        Ok(Ok(())) => {
+            let mut want: Vec<(u16, u64)> = vec![(1, t0 + tx_big + latency), (11, b_at + tx_ns(small + HEADER, bitrate) + latency)];
+            if !drop {
+                want.push((2, t0 + 2 * tx_big + latency));
+            }
+            want.sort_by_key(|e| (e.1, e.0));
+            let mut got: Vec<(u16, u64)> = log.iter().map(|(id, t, _)| (*id, *t)).collect();
+            got.sort_by_key(|e| (e.1, e.0));
+            if got != want {
+                f.push((
+                    "duplex",
+                    format!(
+                        "link of {bitrate} bit/s, latency {latency} ns, policy {}: a offers 2 x {} bytes at {t0} ns, b offers {} bytes at {b_at} ns in the other direction; arrivals (id, ns) {:?}, expected {:?} (the directions are independent)",
+                        if drop { "Drop" } else { "Queue" },
+                        big + HEADER,
+                        small + HEADER,
+                        got,
+                        want
+                    ),
+                ));
+            }
+        }
+    }
+    f
+}
+
 pub fn cmd(args: &Args) -> Report {
     let mut rep = Report::new("C07");
     let mut rng = Rng::new(args.stream_seed("c07"));
@@ -839,6 +927,12 @@ pub fn cmd(args: &Args) -> Report {
         } else {
             break;
         };
+        if i % 100 == 51 {
+            rep.count("links_with_traffic_in_both_directions_at_once", 1);
+            for (kind, detail) in duplex_probe(&mut rng).into_iter().take(1) {
+                rep.violation(&format!("C07/{kind}"), &detail, json!({"driver": "desmon", "sub": "c07", "duplex_probe": true}));
+            }
+        }
         if i % 100 == 1 {
             rep.count("links_created_at_run_time_from_a_busy_template", 1);
             for (kind, detail) in runtime_connect_probe(&mut rng).into_iter().take(1) {
